@@ -1480,8 +1480,10 @@ def unescape_body(src):
             if e == ("call", ("mem", I("str"), "attach"), [I("src"), ("bin", "-", I("sequenceEnd"), I("src"))]) and S.get("strdecl") \
                     and S["seq"] and S["seq"][0] == "at" and S["seq"][1] == S["src"]:
                 return nxt(dict(S, str=f"({S['src']}.take k)"))
-            if e == ("asg", "=", I("src"), ("bin", "+", I("sequenceEnd"), ("num", 1))) and S["seq"] and S["seq"][0] == "at":
-                return nxt(dict(S, src=f"({S['seq'][1]}.drop (k + 1))"))
+            if e[0] == "asg" and e[1] == "=" and e[2] == I("src") and S["seq"] and S["seq"][0] == "at" and \
+                    (e[3] == I("sequenceEnd") or (e[3][0] == "bin" and e[3][1] == "+" and e[3][2] == I("sequenceEnd") and e[3][3][0] == "num")):
+                n = 0 if e[3] == I("sequenceEnd") else e[3][3][1]
+                return nxt(dict(S, src=f"({S['seq'][1]}.drop (k + {n}))"))
             if S["val"] and rest:
                 vn = S["val"][0]
                 ln = ("call", ("mem", I(vn), "length"), [])
